@@ -24,7 +24,9 @@ Plain == {
   M("m5", "m5", "m5", "m5Response", "bare", <<>>, <<>>, <<>>, "", "c8_c8"),
   M("m6", "m6", "m6", "m6Response", "out_bare", <<>>, <<>>, <<>>, "", "int_double"),
   M("m7", "m7", "m7", "m7Response", "out_bare", <<>>, <<>>, <<>>, "", "str_bool"),
-  M("m8", "m8", "m8", "m8Response", "wrapped", <<>>, <<>>, <<>>, "", "other_other") }
+  M("m8", "m8", "m8", "m8Response", "wrapped", <<>>, <<>>, <<>>, "", "other_other"),
+  \* a custom request message name together with TWO response headers (one combined header message per method)
+  M("m9", "m9", "M9In", "m9Response", "wrapped", <<"Quota">>, <<"Session", "Quota">>, <<>>, "", "int_int") }
 Ported == { M("p1", "p1", "p1", "p1Response", "wrapped", <<>>, <<>>, <<>>, "PT1", "int_int"),
             M("p2", "p2", "p2", "p2Response", "wrapped", <<>>, <<>>, <<>>, "PT2", "int_int"),
             M("p3", "p3", "p3", "p3Response", "wrapped", <<>>, <<>>, <<"LimitFault">>, "PT1", "int_int") }
@@ -53,6 +55,8 @@ ZeepDrives(m, o) == o.zeep = "ok"
 MFails(m, o) == (IF OpOnce(m, o) THEN {} ELSE {"OpOnce"}) \cup (IF InDeclaredPort(m, o) THEN {} ELSE {"InDeclaredPort"})
                 \cup (IF MessagesMatch(m, o) THEN {} ELSE {"MessagesMatch"}) \cup (IF FaultsDeclared(m, o) THEN {} ELSE {"FaultsDeclared"})
                 \cup (IF HeadersDeclared(m, o) THEN {} ELSE {"HeadersDeclared"}) \cup (IF ZeepDrives(m, o) THEN {} ELSE {"ZeepDrives"})
+\* (the document of an application is also analysed as the FIRST one built for a freshly constructed application that no schema
+\*  validator has touched - unresolved references of that build are reported with the prefix "first-build:" - and its digest joins the list)
 \*   d = [wellformed, unresolved (sequence of QName references that resolve to nothing), digests (one per hash seed / repetition), nops]
 Closed(d) == d.wellformed /\ d.unresolved = <<>>
 Deterministic(d) == \A i, j \in 1..Len(d.digests) : d.digests[i] = d.digests[j]
